@@ -180,7 +180,7 @@ NET_RULE = ("random benches of 2-7 models (hierarchies of depth 0-3 built with a
 NET_ASSUME = [
     "interleaving granularity: one transition per channel operation (start of a port operation, one push, one pop, completion, handler return); a handler awaits only port operations",
     "the mailbox is a bounded FIFO with blocking senders (justified by C12's refinement theorem for the queue and by the queue/net engines for the wake-ups)",
-    "the executors run every runnable task until none is left and return then; their internals (work stealing, parking, idle detection) are not modelled - single- and multi-threaded runs are compared with the model instead",
+    "the executors run every runnable task until none is left and return then; the multi-threaded executor's idle detection is modelled separately (M-POOL, theorems under C04 and C06), work stealing itself is not - single- and multi-threaded runs are compared with the model instead",
     "event ids, causal pasts and logs are ghost state of the model; the engine reconstructs them on the implementation side from unique payloads",
 ]
 NET_TB = ["M-NET is hand-written from channel.rs, ports/output*.rs, ports/source*.rs, simulation.rs (run / add_model / error classification) and executor/*.rs (message counter); tied by the `net` engine"]
@@ -200,12 +200,12 @@ PROPS.update({
     },
     "C06": {
         "props_module": "NexoVerif.Props.C06",
-        "model": "M-NET (NexoVerif/Model/Net.lean, NetRun.lean)",
+        "model": "M-NET (NexoVerif/Model/Net.lean, NetRun.lean) and M-POOL (NexoVerif/Model/Pool.lean)",
         "engines": [{"name": "net", "rule": NET_RULE}],
-        "assumptions": NET_ASSUME + ["the sum of the per-thread message counters is read when the pool is idle (the counter of the model is the sum); qualified names of sub-models are compared by the engine, not modelled"],
+        "assumptions": NET_ASSUME + ["the counter of M-NET is the sum of the per-thread message counters; that run() reads exactly this sum when it sees the pool idle is proved over M-POOL (count_read_by_run_is_exact) for the order of publication and deactivation read from run_local_worker; qualified names of sub-models are compared by the engine, not modelled"],
         "trusted_base": NET_TB + ["channel-operation hook (cfg nexosim_verif) gives the engine the ground-truth number of sends and receives"],
-        "explanation": "theorems counter_is_number_queued, no_false_report, ok_only_when_nothing_queued, deadlock_report_is_exact, message_loss_report_is_exact, report_kinds_are_exclusive",
-        "level_text": "Lean 4 theorems over M-NET for every reachable state: the in-flight counter equals the number of queued messages, a run with everything processed is reported ok, Deadlock lists exactly the simulation's non-empty mailboxes with exact sizes, MessageLoss(n) is reported exactly when the n queued messages all sit outside the simulation; tied to the code by differential runs (stalling benches, orphan mailboxes, sub-models) and a ground-truth monitor fed by the channel-operation hook",
+        "explanation": "theorems counter_is_number_queued, no_false_report, ok_only_when_nothing_queued, deadlock_report_is_exact, message_loss_report_is_exact, report_kinds_are_exclusive, worker_loop_shape, count_read_by_run_is_exact, count_published_late_is_lost",
+        "level_text": "Lean 4 theorems over M-NET for every reachable state: the in-flight counter equals the number of queued messages, a run with everything processed is reported ok, Deadlock lists exactly the simulation's non-empty mailboxes with exact sizes, MessageLoss(n) is reported exactly when the n queued messages all sit outside the simulation; over M-POOL the count run() reads when it sees the pool idle is the exact sum of all changes (nothing still thread-local), for the publication order read from the source - with the order as found before fix 13cb01f the model has a run that reads 0 with one message in flight; tied to the code by differential runs (stalling benches, orphan mailboxes, sub-models) and a ground-truth monitor fed by the channel-operation hook",
         "level_note": NET_NOTE,
     },
     "C02": {
@@ -241,16 +241,17 @@ PROPS.update({
     },
     "C04": {
         "props_module": "NexoVerif.Props.C04",
-        "model": "M-NET (NexoVerif/Model/Net.lean, NetRun.lean) and M-TASK (NexoVerif/Model/Task.lean)",
+        "model": "M-NET (NexoVerif/Model/Net.lean, NetRun.lean), M-TASK (NexoVerif/Model/Task.lean) and M-POOL (NexoVerif/Model/Pool.lean)",
         "engines": [{"name": "net", "rule": NET_RULE},
                     {"name": "task", "rule": "see C13: real task handles driven sequentially incl. re-entrant wakes; the number of scheduled Runnables is compared after every operation (a lost or duplicated wake-up shows up as a missing or extra Runnable)"}],
         "assumptions": NET_ASSUME + [
             "schedule-independence of the multisets of handler invocations and of sink outputs is proved over M-NET (paths in the unfolding tree as ghost data); the engine additionally compares ST, MT (2-8 workers) and model runs",
-            "PARTIAL: the pool manager's idle detection / parking protocol of mt_executor is not modelled; seeded delays at executor protocol points are not available (no hook), the engine relies on repeated runs with different worker counts",
+            "M-POOL: the idle-detection protocol of mt_executor (worker loop head, pool manager flags, parking, Executor::run) at the granularity of its atomic steps, any number of workers, every interleaving, sequentially consistent; stealing, overflow to the injector and sibling activation are over-approximated (possible at any moment); its step structure and the position of the count publication are read from the source by the extractor (worker_loop_shape); the net engine perturbs the real protocol with seeded delays at six protocol points (cfg nexosim_verif)",
+            "PARTIAL: abort signal, time-outs and worker panics are not in M-POOL; weak-memory effects of the pool manager's orderings are not modelled",
             "every mailbox has capacity >= 1 (enforced by Mailbox::with_capacity)"],
-        "trusted_base": NET_TB + ["M-TASK hand-written; tied by the `task` engine"],
-        "explanation": "theorems ok_step_is_complete, never_stuck_with_nothing_queued, blocked_only_on_channels, handler_invocations_are_schedule_independent, sink_outputs_are_schedule_independent, completed_run_is_the_unfolding_tree, every_execution_has_a_ghost_extension, ok_iff_nothing_queued, woken_task_has_a_runnable",
-        "level_text": "Lean 4 theorems over M-NET for every interleaving: when the run returns Ok at quiescence no task is half-way, every mailbox is empty, every arrival has been processed and every model is initialised; a half-way task with nothing queued always has an enabled transition (no spurious stall), and a blocked task is blocked on a channel operation; any two completed executions of one program with the same driver requests have handled the same multiset of (model, payload) invocations and written the same multiset of (sink, payload) outputs - each is exactly the unfolding tree of the program, every node once (schedule independence, proved with event paths as ghost data); over M-TASK: a Runnable exists iff the state word says so (no lost wake-up); PARTIAL: the executors' idle detection / parking protocol is checked by execution (ST vs MT vs model), not proved",
+        "trusted_base": NET_TB + ["M-TASK hand-written; tied by the `task` engine", "M-POOL hand-written from mt_executor.rs / pool_manager.rs; tied by the extracted call order of the worker loop head and of Executor::run, the extracted shape of the pool manager operations, and by the net engine's multi-threaded runs"],
+        "explanation": "theorems ok_step_is_complete, never_stuck_with_nothing_queued, blocked_only_on_channels, handler_invocations_are_schedule_independent, sink_outputs_are_schedule_independent, completed_run_is_the_unfolding_tree, every_execution_has_a_ghost_extension, ok_iff_nothing_queued, woken_task_has_a_runnable, run_returns_only_when_the_pool_is_idle, idle_detection_never_gets_stuck, tasks_left_in_the_injector_are_seen",
+        "level_text": "Lean 4 theorems over M-NET for every interleaving: when the run returns Ok at quiescence no task is half-way, every mailbox is empty, every arrival has been processed and every model is initialised; a half-way task with nothing queued always has an enabled transition (no spurious stall), and a blocked task is blocked on a channel operation; any two completed executions of one program with the same driver requests have handled the same multiset of (model, payload) invocations and written the same multiset of (sink, payload) outputs - each is exactly the unfolding tree of the program, every node once (schedule independence, proved with event paths as ghost data); over M-TASK: a Runnable exists iff the state word says so (no lost wake-up); over M-POOL (any number of workers, every interleaving of the atomic steps): run() sees the pool idle only when the injector and all local queues are empty, no worker runs or searches and all thread-local counts are published, the protocol has no deadlock and the executor thread never waits while no worker has a step to take; PARTIAL: abort / time-out / panic paths of the pool and weak memory are outside M-POOL",
         "level_note": NET_NOTE + "; PARTIAL as stated in the assumptions",
     },
     "C14": {
